@@ -11,6 +11,16 @@ NOTE = ("Trusted base: the frozen effect / identity tables in kdverif (one reaso
         "the value-level behaviour of the property (see DESIGN.md section 4, 'N' lists).")
 
 CLAIMS = {
+    "C16": ("interception / index-space / dependence-set agreement between getitem_class and getall_class, borrowed-value mutation",
+            "Decides for the 13 KDWrapper subclasses defining getitem_class: a wrapper that rewrites labels per sample also "
+            "provides getall_class (else __getattr__ serves stale labels; 3 representation-changing wrappers exempt by "
+            "table); own accessors are called with untranslated, the wrapped dataset's accessors with translated indices; "
+            "the values returned in bulk depend on every configuration attribute the per-sample values depend on, under "
+            "the configurations the bulk accessor does not reject (backward slices through helpers); a value borrowed from "
+            "the wrapped dataset's bulk accessor is never written in place; constructors draw only from a generator seeded "
+            "by the seed argument (GlobalRng only under seed None); label smoothing mass n*off + (on - off) = 1 with n = "
+            "getdim_class(); one-hot via to_one_hot_vector; no unbound names. Label ranges / element-wise equality as "
+            "values are not decided."),
     "C15": ("affine normal forms with end-point substitution and interval tables, read/write sets, hook propagation",
             "Decides for every _scale_strength of the transform family and MagnitudeSampler.scale_strength: each written "
             "attribute is affine in the factor (inside max/min clamps, int/float conversions), equals its constructed "
